@@ -66,7 +66,14 @@ Counted::Counted( const filename::Definition& fname_def, size_t max_entries,
 /// @since  1.11.0, 05.09.2018
 bool Counted::openCheck()
 {
-   return fileSize() == 0;
+
+   if (fileSize() != 0)
+      return false;
+
+   // an empty file: (re-)start counting its entries
+   mNumberOfEntries = 0;
+
+   return true;
 } // Counted::openCheck
 
 
